@@ -222,11 +222,23 @@ def extractFormatStr (e : Envs) (fuel : Nat) (master cand : Obj) : R Str :=
 
 def hasDollar (ws : List Word) : Bool := ws.any (fun w => w.quote != some .s1 && w.value.contains '$')
 
-/-- definition.fetch_value (variable-free source) -/
+/-- ids marked `tmp = True` while resolving the variables of a source definition -/
+def srcRefs (o : Obj) : List Nat :=
+  match o.meta.varRes with
+  | some (.ok _ refs) => refs
+  | _ => []
+
+/-- definition.fetch_value -/
 def fetchValue (master : Obj) (src : Obj) : R (Option Obj) :=
   match master, src with
-  | .defn mm mws, .defn _ sws =>
-    if hasDollar sws then .error (.unsupported "variable in source") else
+  | .defn mm mws, .defn smeta sws0 =>
+    -- `source.resolve_variables(diff_mode)`: the outcome was computed ahead (`Meta.varRes`)
+    match (match smeta.varRes with
+           | some (.err site line) => (Except.error (.runtime site line) : R (List Word))
+           | some (.ok rws _) => .ok rws
+           | none => if hasDollar sws0 then .error (.unsupported "variable in source") else .ok sws0) with
+    | .error err => .error err
+    | .ok sws =>
     let dep := (mm.attrs.get "deprecated").truthy
     if dep && ((isPlainNone sws && isPlainNone mws) || (isPlainAuto sws && isPlainAuto mws) ||
                (!isPlainNone sws && !isPlainAuto sws && !isPlainNone mws && !isPlainAuto mws &&
@@ -277,7 +289,7 @@ def fetchScope (e : Envs) : Nat → Bool → Meta → List Obj → List Obj → 
           | .defn mm _ =>
             -- every matching source is fetched (and marked used); the last one wins
             let one : (Option Obj × List Nat) → Obj → R (Option Obj × List Nat) := fun acc ms =>
-              (fetchDefn e fuel diff mo ms).map (fun ro => (ro, acc.2 ++ (match ms.meta.id with | some i => [i] | none => [])))
+              (fetchDefn e fuel diff mo ms).map (fun ro => (ro, acc.2 ++ (match ms.meta.id with | some i => [i] | none => []) ++ srcRefs ms))
             let r : R (Option Obj × List Nat) := matching.foldlM one ((none : Option Obj), used)
             (match r with
              | .error err => .error err
@@ -313,7 +325,7 @@ def fetchScope (e : Envs) : Nat → Bool → Meta → List Obj → List Obj → 
                     match mo, ms with
                     | .defn _ _, _ =>
                       (fetchDefn e fuel diff mo ms).map (fun ro =>
-                        (ro, match ms.meta.id with | some i => (if fromM then [] else [i]) | none => []))
+                        (ro, (match ms.meta.id with | some i => (if fromM then [] else [i]) | none => []) ++ (if fromM then [] else srcRefs ms)))
                     | .scope mm kids, .scope _ skids =>
                       (fetchScope e fuel diff mm kids skids).map (fun (ro, u) =>
                         ((if diff && ro.children.isEmpty then none else some ro), if fromM then [] else u))
